@@ -139,23 +139,25 @@ pub fn drop_stream(ctx: &Arc<RunCtx>, tls: &mut ThreadLocalState, p: usize) {
 
 pub fn push_item(ctx: &Arc<RunCtx>, p: usize) {
     let st = &ctx.pipes[p];
-    // index allocation and insertion are one step: the stream order is the order of the item list
-    let (waker, rec) = {
-        let mut c = st.input.lock().unwrap();
-        let k = st.pushed.fetch_add(1, Ordering::SeqCst);
-        let op = match ctx.prog.pipes[p].items.get(k) { Some(op) => *op, None => return };
-        let rec = &ctx.recs[op];
-        rec.call_tid.store(tid_hash(), ORD);
-        rec.inv.store(clock(), ORD);
-        if ctx.prog.pipes[p].mpsc {
-            if let Some(tx) = st.mpsc_tx.lock().unwrap().as_ref() { let _ = tx.unbounded_send(op); }
-            (None, rec)
-        } else {
+    // index allocation and insertion are one step (the stream order is the order of the item list). The lock used for that is
+    // not the one the stream's poll_next takes: a wake-up issued from here can end up blocking until the target's queue has run.
+    let _order = st.push_lock.lock().unwrap();
+    let k = st.pushed.fetch_add(1, Ordering::SeqCst);
+    let op = match ctx.prog.pipes[p].items.get(k) { Some(op) => *op, None => return };
+    let rec = &ctx.recs[op];
+    rec.call_tid.store(tid_hash(), ORD);
+    rec.inv.store(clock(), ORD);
+    if ctx.prog.pipes[p].mpsc {
+        let tx = st.mpsc_tx.lock().unwrap().clone();
+        if let Some(tx) = tx { let _ = tx.unbounded_send(op); }
+    } else {
+        let waker = {
+            let mut c = st.input.lock().unwrap();
             c.q.push_back(op);
-            (c.waker.take(), rec)
-        }
-    };
-    if let Some(w) = waker { w.wake(); }
+            c.waker.take()
+        };
+        if let Some(w) = waker { w.wake(); }
+    }
     rec.ret.store(clock(), ORD);
 }
 
